@@ -3,7 +3,7 @@
 use crate::scen::{Op, Scenario};
 use crate::table::{Entry, Form, Grammar, Live, Obs, OpCtx, OpResult};
 use serde_json::json;
-use std::collections::{BTreeMap, BTreeSet};
+use std::collections::BTreeMap;
 use std::sync::mpsc;
 
 pub fn fnv(s: &[u8], mut h: u64) -> u64 {
@@ -62,6 +62,8 @@ pub struct Probes {
     pub failures: u64,
     pub skipped_ops: u64,
     pub reparse_checked: u64,
+    pub refills: u64,
+    pub same_address_and_length_new_content: u64,
     pub clone_checked: u64,
     pub max_live_results: u64,
 }
@@ -148,7 +150,7 @@ pub fn execute(sc: &Scenario, grammars: &[Grammar], verbose: bool) -> Report {
     let workers = Workers::new(sc.threads.max(1));
     let mut slots: [Option<SlotRec>; 2] = [None, None];
     let mut gen_counter = 0u64;
-    let mut freed: BTreeSet<(usize, usize)> = BTreeSet::new();
+    let mut pool: Vec<String> = Vec::new();
     let mut parses: BTreeMap<usize, ParseRec> = BTreeMap::new();
     let mut live: BTreeMap<usize, LiveRec> = BTreeMap::new();
     let mut prefix = FNV0;
@@ -166,16 +168,29 @@ pub fn execute(sc: &Scenario, grammars: &[Grammar], verbose: bool) -> Report {
 
     for op in sc.ops.iter() {
         match op {
-            Op::New { slot, text } => {
+            Op::New { slot, text, reuse } => {
                 if *slot >= 2 || slots[*slot].is_some() {
                     probes.skipped_ops += 1;
                     continue;
                 }
-                let boxed: Box<String> = Box::new(text.clone());
-                let addr = (boxed.as_ptr() as usize, boxed.len());
-                if freed.contains(&addr) {
+                // freed buffers are owned by the simulator: whether a new input lands on a freed address is the
+                // scenario's decision (replayable), not a property of malloc's internal state
+                let pick = if *reuse { pool.iter().rposition(|b| b.capacity() >= text.len()) } else { None };
+                let mut buf = match pick {
+                    Some(i) => pool.remove(i),
+                    None => String::with_capacity(text.len().max(8)),
+                };
+                let was_freed = pick.is_some();
+                let old = (buf.as_ptr() as usize, buf.len());
+                buf.clear();
+                buf.push_str(text);
+                if was_freed {
                     probes.address_reuse_after_drop += 1;
+                    if (buf.as_ptr() as usize, buf.len()) == old {
+                        probes.same_address_and_length_new_content += 1;
+                    }
                 }
+                let boxed: Box<String> = Box::new(buf);
                 gen_counter += 1;
                 slots[*slot] = Some(SlotRec { ptr: Box::into_raw(boxed), gen: gen_counter });
                 prefix = fnv(format!("new|{slot}|{text}").as_bytes(), prefix);
@@ -193,10 +208,36 @@ pub fn execute(sc: &Scenario, grammars: &[Grammar], verbose: bool) -> Report {
                 parses.retain(|_, p| !(p.slot == *slot && p.gen == rec.gen));
                 // SAFETY: every result borrowing from this input has just been dropped
                 let boxed = unsafe { Box::from_raw(rec.ptr) };
-                freed.insert((boxed.as_ptr() as usize, boxed.len()));
-                drop(boxed);
+                // the buffer goes to the simulator's free list with its old content still in it, as freed memory would
+                pool.push(*boxed);
                 nontrivial_context = true;
                 prefix = fnv(format!("drop_input|{slot}").as_bytes(), prefix);
+            }
+            Op::Refill { slot, text } => {
+                if *slot >= 2 || slots[*slot].is_none() {
+                    probes.skipped_ops += 1;
+                    continue;
+                }
+                let old_gen = slots[*slot].as_ref().unwrap().gen;
+                let ids: Vec<usize> = live.iter().filter(|(_, l)| l.slot == *slot && l.gen == old_gen).map(|(k, _)| *k).collect();
+                for k in ids {
+                    live.remove(&k);
+                }
+                parses.retain(|_, p| !(p.slot == *slot && p.gen == old_gen));
+                gen_counter += 1;
+                let rec = slots[*slot].as_mut().unwrap();
+                rec.gen = gen_counter;
+                // SAFETY: nothing borrows from the String any more
+                let st: &mut String = unsafe { &mut *rec.ptr };
+                let before = (st.as_ptr() as usize, st.len());
+                st.clear();
+                st.push_str(text);
+                if (st.as_ptr() as usize, st.len()) == before {
+                    probes.same_address_and_length_new_content += 1;
+                }
+                probes.refills += 1;
+                nontrivial_context = true;
+                prefix = fnv(format!("refill|{slot}|{text}").as_bytes(), prefix);
             }
             Op::Parse { .. } | Op::Reparse { .. } => {
                 let (id, rec, thread, reparse_of) = match op {
